@@ -9,7 +9,7 @@ META = {
     "technique": 'bounded stand-in (not proved): contract on the real compute_rpo evaluated on exhaustive small graphs + seeded random graphs',
     "level": "exploration",
     "partial": True,
-    "level_text": "Bounded stand-in (NOT a proof): for every rooted digraph with up to 4 nodes whose nodes are all reachable (the "
+    "level_text": "Bounded: ALL rooted digraphs on 5 nodes (65536, every third with a catch edge) and 3200 (thorough 32000) seeded random graphs of 6..60 nodes in 16 batch units; renumbering after changes of the graph. Bounded stand-in (NOT a proof): for every rooted digraph with up to 4 nodes whose nodes are all reachable (the "
                   "precondition Graph construction establishes) and seeded random graphs up to 300 nodes, the real compute_rpo / "
                   "post_order give the entry number 1, a permutation of 1..n, rpo sorted by number, and number the source of every "
                   "edge lower than its target unless the target is an ancestor-or-self of the source in the depth-first tree "
@@ -170,3 +170,91 @@ def renumber_after_changes(U):
         if not o.ok:
             return
         _valid_numbering(U, g, live, g.entry, "after change %d (%s)" % (step + 1, kind))
+
+
+def _rpo_problems(gmod, n, edges, catch):
+    """pure version of the clauses of _check for batch runs -> list of problems"""
+    succ = {}
+    for a, b in edges:
+        succ.setdefault(a, []).append(b)
+    reach = G.reachable(n, succ)
+    keep = sorted(reach)
+    ren = {old: i for i, old in enumerate(keep)}
+    edges = [(ren[a], ren[b]) for a, b in edges if a in reach and b in reach]
+    catch = [(ren[a], ren[b]) for a, b in catch if a in reach and b in reach]
+    n = len(keep)
+    g, nodes = G.build(gmod, n, [e for e in edges if e not in catch], catch)
+    try:
+        g.compute_rpo()
+    except Exception as e:
+        return ["raises %r" % e]
+    nums = [x.num for x in nodes]
+    out = []
+    if nodes[0].num != 1:
+        out.append("entry number %r" % nodes[0].num)
+    if sorted(nums) != list(range(1, n + 1)):
+        out.append("numbers are not a permutation of 1..n: %r" % nums[:12])
+        return out
+    if [x.num for x in g.rpo] != sorted(nums):
+        out.append("rpo list not sorted by number")
+    order = {x.name: [y.name for y in g.all_sucs(x)] for x in nodes}
+    anc, seen = {}, set()
+    stack = [(0, iter(order[0]))]
+    seen.add(0)
+    path = [0]
+    anc[0] = {0}
+    while stack:                      # iterative DFS in all_sucs order: ancestors at discovery time
+        v, it = stack[-1]
+        for w in it:
+            if w not in seen:
+                seen.add(w)
+                anc[w] = set(path) | {w}
+                path.append(w)
+                stack.append((w, iter(order[w])))
+                break
+        else:
+            stack.pop()
+            path.pop()
+    bad = [(a, b) for a in range(n) for b in order[a] if not (nums[a] < nums[b]) and b not in anc[a]]
+    if bad:
+        out.append("non-back edges that do not go up: %r" % bad[:4])
+    return out
+
+
+@unit("C19", covers=[(GR, "Graph.compute_rpo"), (GR, "Graph.post_order")], level="bounded", params=[{"chunk": c} for c in range(16)], samples=1,
+      note="ALL rooted digraphs on 5 nodes without self-loops / edges into the entry (4096 per chunk, every third one with a catch edge) "
+           "and 200 (thorough: 2000) seeded random graphs with 6..60 nodes per chunk")
+def exhaustive_and_medium_graphs(U, chunk):
+    import os
+    gmod = U.mod(GR)
+    U.drawn.update({"chunk": chunk})
+    pairs = [(a, b) for a in range(5) for b in range(1, 5) if a != b]
+    bad, cnt = [], 0
+    for mask in range(chunk, 1 << len(pairs), 16):
+        edges = [p for i, p in enumerate(pairs) if mask >> i & 1]
+        catch = [edges[mask % len(edges)]] if edges and mask % 3 == 0 else []
+        cnt += 1
+        pr = _rpo_problems(gmod, 5, edges, catch)
+        if pr:
+            bad.append((edges, catch, pr))
+            if len(bad) > 2:
+                break
+    count = 200 if os.environ.get("VERIF_TIER", "quick") == "quick" else 2000
+    seed0 = int(os.environ.get("VERIF_SEED", "0") or 0)
+    for k in range(count):
+        if len(bad) > 2:
+            break
+        rng = random.Random("c19/%d/%d/%d" % (seed0, chunk, k))
+        n = rng.randint(6, 60)
+        edges = G.random_graph(rng, n, rng.choice([1, 2, 3]))
+        catch = [e for e in edges if rng.random() < 0.12]
+        cnt += 1
+        pr = _rpo_problems(gmod, n, edges, catch)
+        if pr:
+            bad.append((n, edges[:40], catch[:10], pr))
+    U.ensures("entry numbered 1, numbers a permutation, rpo sorted, every non-back edge goes up -- on every graph of the chunk", not bad,
+              graphs=cnt, first_failures=bad[:2])
+
+
+exhaustive_and_medium_graphs.enumerate_inputs = lambda tier, **p: iter([{}])
+exhaustive_and_medium_graphs.conc_timeout = 600
